@@ -20,13 +20,15 @@ CONSTANTS MaxDepth,    \* nesting bound
           MaxLen,      \* bound on the text length (a new token is only started below it)
           MaxVar,      \* budget of non-default lexical choices
           MaxStr,      \* characters per string
-          Linear       \* TRUE: only the nesting skeleton (array/object alternate by depth, no scalars below the innermost level)
+          Linear,      \* TRUE: only the nesting skeleton (array/object alternate by depth, scalars only at the innermost level)
+          Stride       \* Linear: levels opened / closed per step (1 = every prefix is a state)
 
 VARIABLES text,   \* bytes emitted so far
           stack,  \* open containers: [k, st, items, key]
           str,    \* string being emitted: [on, key, acc, n]
-          done, val, var
-vars == <<text, stack, str, done, val, var>>
+          done, val, var,
+          act     \* ghost: name of the action that produced the state (vacuity is measured on the emitted cases)
+vars == <<text, stack, str, done, val, var, act>>
 
 NoStr == [on |-> FALSE, key |-> FALSE, acc |-> <<>>, n |-> 0]
 NoVal == [z |-> 0]
@@ -111,50 +113,68 @@ Room == Len(text) < MaxLen
 Budget(c) == var + c <= MaxVar
 Scalars == IF Linear THEN Len(stack) = MaxDepth ELSE TRUE
 
-Init == /\ text = <<>> /\ stack = <<>> /\ str = NoStr /\ done = FALSE /\ val = NoVal /\ var = 0
+Init == /\ text = <<>> /\ stack = <<>> /\ str = NoStr /\ done = FALSE /\ val = NoVal /\ var = 0 /\ act = "Init"
 
-Number(i) == /\ CanValue /\ Room /\ Scalars /\ Budget(NumTokens[i].c)
+Number(i) == /\ act' = "Number" /\ CanValue /\ Room /\ Scalars /\ Budget(NumTokens[i].c)
              /\ text' = text \o NumTokens[i].t /\ var' = var + NumTokens[i].c
              /\ Apply(Deliver(stack, [n |-> NumTokens[i].t])) /\ UNCHANGED str
-Literal(i) == /\ CanValue /\ Room /\ Scalars /\ Budget(Literals[i].c)
+Literal(i) == /\ act' = "Literal" /\ CanValue /\ Room /\ Scalars /\ Budget(Literals[i].c)
               /\ text' = text \o Literals[i].t /\ var' = var + Literals[i].c
               /\ Apply(Deliver(stack, Literals[i].v)) /\ UNCHANGED str
-BeginStr == /\ Room /\ (IF CanKey THEN TRUE ELSE CanValue /\ Scalars)
+BeginStr == /\ act' = "BeginStr" /\ Room /\ (IF CanKey THEN ~Linear ELSE CanValue /\ Scalars)
             /\ text' = Append(text, 34)
             /\ str' = [on |-> TRUE, key |-> CanKey, acc |-> <<>>, n |-> 0]
             /\ UNCHANGED <<stack, done, val, var>>
-StrChar(i) == /\ InStr /\ str.n < MaxStr /\ Budget(StrChars[i].c)
+StrChar(i) == /\ act' = "StrChar" /\ InStr /\ str.n < MaxStr /\ Budget(StrChars[i].c)
               /\ text' = text \o StrChars[i].t /\ var' = var + StrChars[i].c
               /\ str' = [str EXCEPT !.acc = @ \o StrChars[i].v, !.n = @ + 1]
               /\ UNCHANGED <<stack, done, val>>
-EndStr == /\ InStr
+EndStr == /\ act' = "EndStr" /\ InStr
           /\ text' = Append(text, 34) /\ str' = NoStr /\ UNCHANGED var
           /\ IF str.key
              THEN /\ \A j \in 1..Len(Top.items) : Top.items[j][1] # str.acc       \* keys of one object are distinct
                   /\ stack' = [stack EXCEPT ![Len(stack)] = [@ EXCEPT !.st = "key", !.key = str.acc]]
                   /\ UNCHANGED <<done, val>>
              ELSE Apply(Deliver(stack, [s |-> str.acc]))
-Colon == /\ ~done /\ ~InStr /\ (IF stack = <<>> THEN FALSE ELSE Top.st = "key")
+Colon == /\ act' = "Colon" /\ ~done /\ ~InStr /\ (IF stack = <<>> THEN FALSE ELSE Top.st = "key")
          /\ text' = Append(text, 58)
          /\ stack' = [stack EXCEPT ![Len(stack)] = [@ EXCEPT !.st = "afterColon"]]
          /\ UNCHANGED <<str, done, val, var>>
-Begin(k) == /\ CanValue /\ Room /\ Len(stack) < MaxDepth
-            /\ (Linear => k = IF Len(stack) % 2 = 0 THEN "a" ELSE "o")
+Begin(k) == /\ act' = "Begin" /\ CanValue /\ Room /\ Len(stack) < MaxDepth /\ ~Linear
             /\ text' = Append(text, IF k = "a" THEN 91 ELSE 123)
             /\ stack' = Append(stack, [k |-> k, st |-> "first", items |-> <<>>, key |-> <<>>])
             /\ UNCHANGED <<str, done, val, var>>
-End == /\ ~done /\ ~InStr /\ (IF stack = <<>> THEN FALSE ELSE Top.st \in {"first", "afterItem"})
-       /\ (Linear => (Top.st = "afterItem" \/ Len(stack) = MaxDepth))
+End == /\ act' = "End" /\ ~done /\ ~InStr /\ ~Linear /\ (IF stack = <<>> THEN FALSE ELSE Top.st \in {"first", "afterItem"})
        /\ text' = Append(text, IF Top.k = "a" THEN 93 ELSE 125)
        /\ Apply(Deliver(SubSeq(stack, 1, Len(stack) - 1), IF Top.k = "a" THEN [a |-> Top.items] ELSE [o |-> Top.items]))
        /\ UNCHANGED <<str, var>>
-Comma == /\ ~done /\ ~InStr /\ Room
+Comma == /\ act' = "Comma" /\ ~done /\ ~InStr /\ Room
          /\ (IF stack = <<>> THEN FALSE ELSE Top.st = "afterItem" /\ Len(Top.items) < MaxItems)
          /\ text' = Append(text, 44)
          /\ stack' = [stack EXCEPT ![Len(stack)] = [@ EXCEPT !.st = "sep"]]
          /\ UNCHANGED <<str, done, val, var>>
+\* Linear mode (nesting depth): open / close up to Stride levels in one step; array and object levels alternate, an
+\* object level is opened as  {"":  (its only member is the next level)
+RECURSIVE OpenN(_, _, _)
+OpenN(stk, txt, n) ==
+    IF n = 0 \/ Len(stk) = MaxDepth THEN [stack |-> stk, text |-> txt]
+    ELSE IF Len(stk) % 2 = 0
+         THEN OpenN(Append(stk, [k |-> "a", st |-> "first", items |-> <<>>, key |-> <<>>]), Append(txt, 91), n - 1)
+         ELSE OpenN(Append(stk, [k |-> "o", st |-> "afterColon", items |-> <<>>, key |-> <<>>]), txt \o <<123, 34, 34, 58>>, n - 1)
+RECURSIVE CloseN(_, _, _)
+CloseN(r, txt, n) ==   \* r = [stack, done, val]
+    IF n = 0 \/ r.stack = <<>> THEN [r |-> r, text |-> txt]
+    ELSE LET f == r.stack[Len(r.stack)] IN
+         CloseN(Deliver(SubSeq(r.stack, 1, Len(r.stack) - 1), IF f.k = "a" THEN [a |-> f.items] ELSE [o |-> f.items]),
+                Append(txt, IF f.k = "a" THEN 93 ELSE 125), n - 1)
+DeepBegin == /\ act' = "DeepBegin" /\ Linear /\ CanValue /\ Len(stack) < MaxDepth
+             /\ LET o == OpenN(stack, text, Stride) IN stack' = o.stack /\ text' = o.text
+             /\ UNCHANGED <<str, done, val, var>>
+DeepEnd == /\ act' = "DeepEnd" /\ Linear /\ ~done /\ ~InStr /\ (IF stack = <<>> THEN FALSE ELSE Top.st = "afterItem" \/ (Top.st = "first" /\ Len(stack) = MaxDepth))
+           /\ LET c == CloseN([stack |-> stack, done |-> FALSE, val |-> NoVal], text, Stride) IN Apply(c.r) /\ text' = c.text
+           /\ UNCHANGED <<str, var>>
 \* insignificant white space: before any token and after the document; at most one variant between two tokens
-Ws(i) == /\ ~InStr /\ Budget(1)
+Ws(i) == /\ act' = "Ws" /\ ~InStr /\ Budget(1)
          /\ (IF text = <<>> THEN TRUE ELSE text[Len(text)] \notin WS)
          /\ (done \/ Room)
          /\ text' = text \o WsVariants[i] /\ var' = var + 1
@@ -164,7 +184,7 @@ Next == \/ \E i \in 1..Len(NumTokens) : Number(i)
         \/ \E i \in 1..Len(Literals) : Literal(i)
         \/ BeginStr \/ EndStr \/ Colon \/ End \/ Comma
         \/ \E i \in 1..Len(StrChars) : StrChar(i)
-        \/ Begin("a") \/ Begin("o")
+        \/ Begin("a") \/ Begin("o") \/ DeepBegin \/ DeepEnd
         \/ \E i \in 1..Len(WsVariants) : Ws(i)
 Spec == Init /\ [][Next]_vars
 
@@ -197,5 +217,5 @@ Expect(v) ==
     ELSE v
 View == <<text, stack, str, done, var>>
 Emit == PrintT(ToJson([t |-> text', k |-> IF done' THEN "doc" ELSE IF (stack' # <<>> \/ str'.on) THEN "prefix" ELSE "open",
-                       v |-> Expect(val')]))
+                       act |-> act', v |-> Expect(val'), fin |-> IF done' THEN Doc(text').p - 1 ELSE 0]))
 ===============================================================================
